@@ -51,6 +51,10 @@ fn auto_delta_encoding_order<T: NumberLike>(
   nums: &[T],
   compression_level: usize,
 ) -> usize {
+  if nums.is_empty() {
+    // nothing to try compressing (an empty chunk is not allowed); no deltas
+    return 0;
+  }
   let head_nums = if nums.len() < AUTO_DELTA_LIMIT {
     nums
   } else {
